@@ -109,6 +109,12 @@ def run_shard(desc, ctx):
         samples, labels = samples[o] - samples.min(), labels[o]
         run_case({'samples': samples.tolist(), 'labels': labels.tolist(), 'k': 3, 'bin': 1, 'half': 10, 'rate': 1.0, 'perm': [2, 0, 1],
                   'unused_pos': 1, 'windowed': True, 'bigids': False}, ctx)
+    # dense trains of exactly 1024 / 1025 / 2**14 / 2**14 + 1 spikes
+    if 3 <= desc['shard'] < 7:
+        rl = np.random.default_rng([desc['seed'], desc['shard'], 1516])
+        n = [1024, 1025, 2 ** 14, 2 ** 14 + 1][desc['shard'] - 3]
+        run_case({'samples': np.cumsum(rl.choice([0, 1, 1, 2, 3, 30], size=n)).tolist(), 'labels': rl.integers(0, 3, size=n).tolist(), 'k': 3,
+                  'bin': 2, 'half': 4, 'rate': 2.0, 'perm': [1, 2, 0], 'unused_pos': 0, 'windowed': True, 'bigids': bool(desc['shard'] % 2)}, ctx)
     # random long trains
     rng = np.random.default_rng([desc['seed'], desc['shard'], 15])
     for r in range(desc['nrand'] // desc['n'] + 1):
